@@ -45,6 +45,10 @@ type ArrayV struct {
 type SymArrV struct {
 	Arr  *Term // (Array Int elem)
 	Elem types.Type
+	// If GGuard != nil the array equals GBase whenever GGuard is false (guarded in-place writes);
+	// used to keep arrays as linear store chains across conditional appends.
+	GBase  *Term
+	GGuard *Term
 }
 
 type SliceV struct {
@@ -181,6 +185,14 @@ func mergeValue(c *Term, a, b Value) Value {
 		if y, ok := b.(*SymArrV); ok {
 			if x.Arr == y.Arr {
 				return x
+			}
+			// y is a guarded update of x's array and its guard is incompatible with c: y already
+			// denotes x's array on the paths where c holds
+			if y.GGuard != nil && y.GBase == x.Arr && And(c, y.GGuard).IsFalse() {
+				return &SymArrV{Arr: y.Arr, Elem: y.Elem}
+			}
+			if x.GGuard != nil && x.GBase == y.Arr && And(Not(c), x.GGuard).IsFalse() {
+				return &SymArrV{Arr: x.Arr, Elem: x.Elem}
 			}
 			return &SymArrV{Arr: Ite(c, x.Arr, y.Arr), Elem: x.Elem}
 		}
